@@ -14,6 +14,7 @@
 //            linearisation point.  A share of cases has no sentinel (only
 //            then can the socket have a single context) and linearises with
 //            vf_quiesce() on inproc.
+//   dettcp   det restricted to tcp with the sentinel.
 //   conc     2 publisher threads, one thread per subscriber context, one
 //            option-setter thread.  Interval oracle: a received body must
 //            be prefixed by a topic that was (possibly) in effect at some
@@ -880,6 +881,11 @@ det_case(long idx)
 	d->sentinel = !vf_chance(r, 1, 5);
 	d->tran     = d->sentinel && vf_chance(r, 1, 4) ? VF_T_TCP : VF_T_INPROC;
 	d->npub     = vf_chance(r, 1, 3) ? 2 : 1;
+	if (!strcmp(vf_mode, "dettcp")) {
+		// tcp only (connection set-up and the socket path dominate)
+		d->sentinel = true;
+		d->tran     = VF_T_TCP;
+	}
 	int nsteps  = (int) vf_range(r, 80, vf_tier ? 500 : 320);
 	int maxctx  = d->sentinel ? (int) vf_range(r, 0, 4) : (vf_chance(r, 1, 2) ? 0 : (int) vf_range(r, 1, 3));
 	int cap0    = vf_chance(r, 4, 5) ? caps[vf_below(r, 15)] : 0;
@@ -1561,7 +1567,7 @@ main(int argc, char **argv)
 		fn = conc_case;
 	} else if (!strcmp(vf_mode, "noblock")) {
 		fn = noblock_case;
-	} else if (strcmp(vf_mode, "det") != 0 && vf_mode[0] != 0) {
+	} else if (strcmp(vf_mode, "det") != 0 && strcmp(vf_mode, "dettcp") != 0 && vf_mode[0] != 0) {
 		vf_harness_fail("unknown mode %s", vf_mode);
 	}
 	for (long idx = 0; idx < vf_cases; idx++) {
